@@ -6,7 +6,13 @@ use std::collections::HashMap;
 use std::sync::Arc;
 
 pub mod c01;
+pub mod c04;
+pub mod c11;
+pub mod c13;
+pub mod c16;
+pub mod c19;
 pub mod conf;
+pub mod spec;
 
 pub struct Ctx {
     pub tier: Tier,
@@ -91,8 +97,16 @@ pub fn constructible(s: &dyn Subject) -> bool {
 }
 
 pub fn replay(property: &str, case: &serde_json::Value) -> Result<(), String> {
+    if case["kind"].as_str() == Some("special") {
+        return spec::replay(case);
+    }
     match property {
         "C01" => c01::replay(case),
+        "C04" => c04::replay(case),
+        "C11" => c11::replay(case),
+        "C13" => c13::replay(case),
+        "C16" => c16::replay(case),
+        "C19" => c19::replay(case),
         "C02" | "C05" | "C06" | "C07" | "C08" | "C09" | "C10" if matches!(case["kind"].as_str(), Some("conf") | Some("conf-batch")) => conf::replay(case),
         _ => Err(format!("no replay for {property}")),
     }
@@ -101,13 +115,41 @@ pub fn replay(property: &str, case: &serde_json::Value) -> Result<(), String> {
 pub fn run(property: &str, ctx: &Ctx, rep: &mut Report) -> Result<(), String> {
     match property {
         "C01" => c01::run(ctx, rep),
+        "C04" => c04::run(ctx, rep),
+        "C11" => c11::run(ctx, rep),
+        "C13" => c13::run(ctx, rep),
+        "C16" => c16::run(ctx, rep),
+        "C19" => c19::run(ctx, rep),
         "C02" => conf::run_conf("C02", &["aes"], ctx, rep),
         "C05" => conf::run_conf("C05", &["des"], ctx, rep),
         "C06" => conf::run_conf("C06", &["aria", "camellia", "sm4"], ctx, rep),
-        "C07" => conf::run_conf("C07", &["kuznyechik", "magma", "belt-block"], ctx, rep),
+        "C07" => {
+            conf::run_conf("C07", &["kuznyechik", "magma", "belt-block"], ctx, rep);
+            if ctx.wants_k("belt-block", "belt_block_raw") && cfg!(not(feature = "lite")) {
+                spec::run_special("C07", crate::special::belt_raw_cases(ctx.tier), rep);
+            }
+        }
         "C08" => conf::run_conf("C08", &["serpent", "twofish", "cast6"], ctx, rep),
-        "C09" => conf::run_conf("C09", &["blowfish", "cast5", "idea", "rc2", "xtea"], ctx, rep),
-        "C10" => conf::run_conf("C10", &["rc5", "speck-cipher", "threefish", "gift-cipher"], ctx, rep),
+        "C09" => {
+            conf::run_conf("C09", &["blowfish", "cast5", "idea", "rc2", "xtea"], ctx, rep);
+            if ctx.wants_k("rc2", "Rc2::new_with_eff_key_len") && cfg!(not(feature = "lite")) {
+                spec::run_special("C09", crate::special::rc2_grid(ctx.tier), rep);
+            }
+        }
+        "C10" => {
+            conf::run_conf("C10", &["rc5", "speck-cipher", "threefish", "gift-cipher"], ctx, rep);
+            if ctx.wants_k("threefish", "Threefish::new_with_tweak") && cfg!(not(feature = "lite")) {
+                spec::run_special("C10", crate::special::threefish_cases(ctx.tier), rep);
+            }
+        }
+        "C17" => {
+            if cfg!(feature = "allfeat") {
+                spec::run_special("C17", crate::special::hazmat_cases(ctx.tier), rep);
+            } else {
+                rep.notes.push("hazmat feature off in this build".into());
+            }
+        }
+        "C18" => spec::run_special("C18", crate::special::wblock_cases(ctx.tier), rep),
         _ => return Err(format!("unknown property {property}")),
     }
     Ok(())
